@@ -213,7 +213,7 @@ partial def step (st : St) (e : Sexp) : St × String :=
     | _, _ => (st, "bad-op")
   | .list [.atom "sb", .atom "build"] =>
     match st.sb with
-    | some b => push st (.set ⟨.hamt, some (.hamt b.build)⟩)
+    | some b => push { st with sb := some b.build.2 } (.set ⟨.hamt, some (.hamt b.build.1)⟩)
     | none => (st, "bad-op")
   | .list (.atom op :: args) =>
     match curObj st with
